@@ -118,7 +118,7 @@ Definition handshake (n : nat) (e : env) (l : list (hs_kind * list bytes)) (clos
     protection is the sync_pipelining() call before the 220. *)
 Definition h_starttls (f : nat) (o : toracles) (closes : bool) (t : tstate) (s : sstate) : list tevent * hres * tstate :=
   if (STARTTLS_REFUSES_IN_TLS && tls t) || (STARTTLS_REFUSES_NON_ESMTP && negb (esmtp s)) then ([], HSEQ, mk t s)   (* return 1 *)
-  else if negb (o_tlsinit o) then (tag (tls t) [Reply TLS_FAIL_CODE], HUNKNOWN, mk t s)                               (* tls_err(): -EDONE *)
+  else if negb (o_tlsinit o) then (tag (tls t) [Reply TLS_FAIL_CODE], if TLS_ERR_RETURNS_EDONE then HEDONE else HUNKNOWN, mk t s)   (* tls_err() *)
   else
     let '(sp, s1) := if TLS_SYNC_BEFORE_READY then sync_pipelining f s else (None, s) in
     match sp with
